@@ -168,15 +168,17 @@ Proof.
   (* send_cmd_recv_rsp and read_without_encryption accept it *)
   set (D := flat_map (blk_get (e_mem s)) bl) in *.
   assert (Hr : t3_rsp 6 e_idm ((13 + 16 * len bl) :: 7 :: e_idm ++ [0; 0; len bl] ++ D) = Ok (len bl :: D)).
-  { unfold t3_rsp. change (idx ((13 + 16 * len bl) :: 7 :: e_idm ++ [0; 0; len bl] ++ D) 0) with (Ok (13 + 16 * len bl)). cbn [bind].
+  { unfold t3_rsp.
     assert (Hl : len ((13 + 16 * len bl) :: 7 :: e_idm ++ [0; 0; len bl] ++ D) = 13 + 16 * len bl).
     { rewrite !len_cons, !len_app. change (len e_idm) with 8. change (len [0; 0; len bl]) with 3. lia. }
-    rewrite Hl. replace (negb (13 + 16 * len bl =? 13 + 16 * len bl)) with false by lia.
-    change (idx ((13 + 16 * len bl) :: 7 :: e_idm ++ [0; 0; len bl] ++ D) 1) with (Ok 7). cbn [bind].
+    rewrite Hl. change (bt ((13 + 16 * len bl) :: 7 :: e_idm ++ [0; 0; len bl] ++ D) 0) with (13 + 16 * len bl).
+    replace ((13 + 16 * len bl <? 2) || negb (13 + 16 * len bl =? 13 + 16 * len bl)) with false by lia.
+    change (bt ((13 + 16 * len bl) :: 7 :: e_idm ++ [0; 0; len bl] ++ D) 1) with 7.
     change (negb (7 =? 6 + 1)) with false. cbv iota.
     change (slice ((13 + 16 * len bl) :: 7 :: e_idm ++ [0; 0; len bl] ++ D) 2 10) with e_idm.
     replace (list_eqb e_idm e_idm) with true by reflexivity. cbn [negb].
-    change (idx ((13 + 16 * len bl) :: 7 :: e_idm ++ [0; 0; len bl] ++ D) 10) with (Ok 0). cbn [bind].
+    replace (13 + 16 * len bl <? 12) with false by lia.
+    change (bt ((13 + 16 * len bl) :: 7 :: e_idm ++ [0; 0; len bl] ++ D) 10) with 0.
     change (negb (0 =? 0)) with false. cbv iota. reflexivity. }
   rewrite Hr. cbn [bind]. rewrite len_cons. subst D. rewrite HD.
   replace (negb (1 + 16 * len bl =? 1 + 16 * len bl)) with false by lia. reflexivity.
